@@ -1,4 +1,4 @@
-import KoordVerif.Proofs.C01Step
+import KoordVerif.Proofs.C01History
 /-
 C01 — elastic-quota used/request accounting is exact over any event history.
 
@@ -99,33 +99,48 @@ theorem localInv_nonneg {s : State} (ht : TreeOK (tree s)) (hp : ParamsOK s) (hl
     ∀ m q, get? s m = some q → RNonneg q ∧ UNonneg q :=
   fun m q hq => ⟨reqInv_nonneg ht hp hl.1 m q hq, usedInv_nonneg ht hp hl.2 m q hq⟩
 
+/-- DeleteQuota keeps the local equations — because deleteQuotaNoLock hands back the max-LIMITED request
+(`0 - q.limited` in the model; the defect repaired by 3651408 handed back the raw request). -/
+theorem delete_preserves_localInv {s : State} {n : Nat} {q : Quota} (hq : get? s n = some q)
+    (ht : TreeOK (tree s)) (hpar : ParamsOK s) (hl : LocalInv s)
+    (hc : Chain (erase s n) (path (erase s n) q.parent)) (hnd : (path (erase s n) q.parent).Nodup)
+    (hh : (path (erase s n) q.parent).head? = some q.parent) :
+    LocalInv (deleteQuota s n) ∧ TreeOK (tree (deleteQuota s n)) ∧ ParamsOK (deleteQuota s n) :=
+  deleteQuota_preserves hq ht hpar hl hc hnd hh
+
 /-
-FULL STATEMENTS NOT YET PROVED (DESIGN §4 C01, T1–T3, T5, T6):
-  step_preserves_localInv : WF s → Pre s op → LocalInv s → LocalInv (step s op)
-  localInv_unique         : TreeOK (tree s) → LocalInv s → aggregates s = recompute (objects s)
-  history_exact           : ∀ ops, Admissible init ops → LocalInv (run init ops)
-  reset_agrees, delta_commute
-Proved part: the propagation lemmas above, which are the inductive core of every case of
-`step_preserves_localInv`, and the instance below for the two delta entry points that the pod handlers call.
-Missing: the PodCache bookkeeping lemmas (add / remove / flag flip change `podSum` by exactly the handler's
-delta) for each handler, and the self-index −1 uses (max/min update, delete, re-parent, rebuild).
+`Good s` = topology well-formed (`Topo`: unique names, a rank function, the root on top, every computed path a
+proper chain) ∧ declared maxima and pod requests >= 0 ∧ cache ids unique per group ∧ `LocalInv s`.
+`Pre s op` (Proofs/C01History.lean): amounts >= 0, the touched group declares the dimension, the old pod object
+handed to a handler is the one delivered last (`Consistent`), new / remaining topology admissible (what the
+webhook of C15 guarantees), MigratePod moves a cached pod into a group that does not hold it.
+
+FULL STATEMENT (DESIGN §4 C01 T1/T3):
+  step_preserves_localInv : Good s → Pre' s op → Good (step s op)      for EVERY op kind
+  history_exact           : PreAll' init ops → LocalInv (run init ops)
+Proved below for every op kind EXCEPT: UpdateQuota with a changed parent (re-parent), UpdateQuota with a changed
+lend / isParent flag (updateQuotaInfoFromRemote + resetQuotaNoLock) and ResetQuota — for these `Pre` is `False`.
+Everything else (create, min/max/weight update, delete, OnPodAdd incl. fail-over, OnPodUpdate all branches,
+OnPodDelete, ReservePod, UnreservePod, MigratePod) is covered, for all states, trees, amounts and histories.
+Also not proved: `localInv_unique` (the equations determine the figures), `reset_agrees`, `delta_commute`.
 -/
 
-/-- updateGroupDeltaRequestNoLock(n, d, dnp, 0) after the pod set of `n` changed by (d, dnp). -/
-theorem step_preserves_localInv_partial {s : State} {n : Nat} {d dnp : Int}
-    (hc : Chain s (path s n)) (hnd : (path s n).Nodup) (hh : (path s n).head? = some n)
-    (ht : TreeOK (tree s)) (hpar : ParamsOK s) (hpend : ReqPend s n d dnp) (hu : UsedInv s) :
-    LocalInv (deltaReq s n d dnp true) := by
-  have h := propagate_request_preserves hc hnd hh ht hpar hpend
-  exact ⟨h.1, usedPend_zero.mp (h.2.1 n 0 0 (usedPend_zero.mpr hu))⟩
+/-- one operation keeps the invariant (hence the local equations) -/
+theorem step_preserves_localInv_partial {s : State} {op : Op} (h : Good s) (hpre : Pre s op) :
+    Good (step s op) ∧ LocalInv (step s op) :=
+  ⟨step_good h hpre, good_localInv (step_good h hpre)⟩
 
-/-- updateGroupDeltaUsedNoLock(n, d, dnp, 0) after the assigned pod set of `n` changed by (d, dnp). -/
-theorem step_preserves_localInv_used_partial {s : State} {n : Nat} {d dnp : Int}
-    (hc : Chain s (path s n)) (hnd : (path s n).Nodup) (hh : (path s n).head? = some n)
-    (ht : TreeOK (tree s)) (hpar : ParamsOK s) (hpend : UsedPend s n d dnp) (hr : ReqInv s) :
-    LocalInv (deltaUsed s n d dnp true) := by
-  have h := propagate_used_preserves hc hnd hh ht hpar hpend
-  exact ⟨reqPend_zero.mp (h.2.1 n 0 0 (reqPend_zero.mpr hr)), h.1⟩
+/-- any finite history of covered operations, from the empty manager: the local equations hold at the end
+(and after every prefix, since `PreAll` is prefix-closed by construction). -/
+theorem history_exact_partial (ops : List Op) (hp : PreAll init ops) :
+    Good (run init ops) ∧ LocalInv (run init ops) :=
+  ⟨run_good ops init init_good hp, good_localInv (run_good ops init init_good hp)⟩
+
+/-- …and consequently nothing is negative at the end of such a history -/
+theorem history_nonneg_partial (ops : List Op) (hp : PreAll init ops) :
+    ∀ m q, get? (run init ops) m = some q → RNonneg q ∧ UNonneg q := by
+  have hg := run_good ops init init_good hp
+  exact localInv_nonneg hg.topo.tree hg.params (good_localInv hg)
 
 /-! ### non-vacuity: a concrete history, its state, and the hypotheses on it -/
 
